@@ -98,7 +98,9 @@ type hsStep struct {
 
 func decodeHandshakeAds(c *Ctx) error {
 	ctxFor := func() (context.Context, context.CancelFunc) {
-		return context.WithTimeout(context.Background(), 2*time.Second)
+		// every step reads a prepared byte sequence followed by EOF: nothing ever waits for a peer, the
+		// bound is a backstop only (a short one, started before the step's setup, runs out on a busy machine)
+		return context.WithTimeout(context.Background(), 30*time.Second)
 	}
 	authCmd := int64(commands.DC_AUTHENTICATE)
 	revCmd := int64(ccb.CommandReverseConnect)
